@@ -195,8 +195,13 @@ def sampleTree : C09.Expr :=
   .call "f".toList [.lit "a b".toList, .group 1, .call "g".toList [.key "k".toList], .lit "x".toList]
 
 def sampleStyle : Style := fun p =>
-  { quote := p.length % 2 == 1, lead := [false], trail := if p = [] then [] else [true],
-    sep := fun i => (i % 2 == 1, if i = 0 then [false] else []) }
+  { quote := p.length % 2 == 1, lead := [0], trail := if p = [] then [] else [1],
+    sep := fun i => (i % 2, if i = 0 then [0] else []) }
+
+/-- A style with Unicode white space: NBSP after `{`, IDEOGRAPHIC SPACE + LF before `}`, EM SPACE / LINE
+    SEPARATOR between arguments. -/
+def unicodeStyle : Style := fun _ =>
+  { quote := false, lead := [7], trail := [24, 2], sep := fun i => (if i % 2 = 0 then 12 else 20, []) }
 
 def sampleFn : List Char → List Bytes → Bytes := probeSem
 def sampleReg : Registry := pureRegistry ["f".toList, "g".toList] sampleFn
@@ -210,7 +215,12 @@ example : RegOk sampleReg sampleFn sampleTree := by
 
 example : printTop sampleStyle sampleTree = "{ f  \"a b\"\t{ 1\t} { g  { k\t}\t}\t\"x\"}".toList := by
   simp [printTop, sampleTree, printArg, printArgs, sampleStyle, Style.child, decimal, ws, sepWs, wsChar, bare,
-    special, isSpace, digitChar]
+    special, isSpace, digitChar, spaceRunes]
+
+example : printTop unicodeStyle (.call "f".toList [.key "k".toList, .lit "x".toList]) =
+    "{\u00a0f\u2003{\u00a0k\u3000\n}\u2028x\u3000\n}".toList := by
+  simp [printTop, printArg, printArgs, unicodeStyle, Style.child, ws, sepWs, wsChar, bare,
+    special, isSpace, spaceRunes]
 
 example : LayoutOk true [([' '], .bare ['a']), ([' ', '\t'], .quoted []), (['\n'], .braced "f \"x y\" {1}".toList)] := by
   refine ⟨by decide, Or.inl rfl, (by decide : bare ['a'] = true), by decide, Or.inr (by decide), (by decide : plain [] = true),
